@@ -72,9 +72,15 @@ func walkTypes(ty *desc.T, fn func(*desc.T)) {
 }
 
 func genC02Case(t *rapid.T) *StructCase {
+	if drawManyTypes(t) {
+		ev.Class("one call over more than 512 distinct struct types")
+		c := manyTypesCase(t)
+		c.Entry = "Struct"
+		return c
+	}
 	if rapid.IntRange(0, 3).Draw(t, "namedMode") == 0 {
 		// named library types: top-level slices / arrays / maps with readable labels, per-type rule sets
-		c := genNamedCase(t, namedOpts{roots: []string{"Mid", "Top", "Leaf", "Tree"}, marks: []string{"required", "exist", "-", "required|need"},
+		c := genNamedCase(t, namedOpts{roots: []string{"Mid", "Top", "Leaf", "Tree", "Alias"}, marks: []string{"required", "exist", "-", "required|need"},
 			msgMode: rapid.SampledFrom([]int{0, 1, 2, 3}).Draw(t, "msgs"), maxDepth: 3, density: 7, extra: []string{"nosuch", "to=5", "gcustom1"}, unscoped: false})
 		c.pickEntry(rapid.IntRange(0, 7).Draw(t, "entry"))
 		return c
@@ -139,6 +145,9 @@ func TestC02(t *testing.T) {
 	rapid.Check(t, func(t *rapid.T) {
 		c := genC02Case(t)
 		takeGenFlags()
+		if rapid.IntRange(0, 5).Draw(t, "smallCache") == 3 {
+			c.Cache = rapid.IntRange(1, 3).Draw(t, "cacheCap") // the value may hold more struct types than the type cache
+		}
 		msg, res, skipped := checkC02(c)
 		if skipped != "" {
 			ev.Excluded(strings.SplitN(skipped, ":", 2)[0])
